@@ -1,8 +1,8 @@
 #!/bin/sh
-# seed5.sh <Cxx> [test run-filter] : round-5 pipeline for one sub-agent worktree /tmp/wt5/<Cxx>:
+# seed5.sh <Cxx> [test run-filter] : pipeline (rounds 5, 6) for one sub-agent worktree ${WTBASE:-/tmp/wt5}/<Cxx>:
 # confirm (verify_seed.sh), keep under seeded/<Cxx>-<name>, run the property's check against the worktree
 # (VERIF_REPO, so several can run side by side without touching /repo), keep log under out/.
-ID=$1; FILTER=$2; WT=/tmp/wt5/$ID
+ID=$1; FILTER=$2; WT=${WTBASE:-/tmp/wt5}/$ID
 NAME=$ID-$(python3 -c "import json;print(json.load(open('$WT/_seed/meta.json'))['name'])")
 /verif/tools/verify_seed.sh $WT $ID "$FILTER" > /verif/out/seed5_verify_$ID.log 2>&1
 tail -1 /verif/out/seed5_verify_$ID.log
